@@ -76,6 +76,12 @@ NEAR_EDITS = ["blank-line-top", "blank-line-after-header", "trailing-blanks-and-
 def content(path, cid):
     ext = path.rsplit(".", 1)[1]
     if cid == "nb":
+        if ext in ("h", "c", "cpp", "cc", "hpp"):
+            # a header whose content C and C++ measure differently (only C++ reports the macro-loop body as a nested unit)
+            return ("int list_sum(struct list *head)\n{\n    int s = 0;\n    list_for_each(pos, head) {\n        s += pos->v;\n        s += 1;\n    }\n"
+                    "    return s;\n}\n").encode()
+        if ext == "ts":
+            return b"function area(w: number): number {\n  return w;\n}\n"
         return _NB_PY if ext == "py" else _NB_JS
     if cid.startswith("nv:"):
         return _near(_NB_PY if ext == "py" else _NB_JS, cid[3:])
@@ -344,6 +350,20 @@ def _block(block, agg):
             if new_doc is not None:
                 res.append(new_doc)
         agg.newdocs = getattr(agg, "newdocs", []) + res
+    elif kind == "sibling":
+        # creating / deleting / renaming a SIBLING file must not change what is reported for an unchanged file, cached or not
+        _, a, b = block
+        b2 = b.rsplit("/", 1)[0] + "/moved_" + b.rsplit("/", 1)[1]
+        for seq in ([("write", a, "nb"), ("scan",), ("write", b, "nb"), ("scan",), ("delete", b), ("scan",)],
+                    [("write", a, "nb"), ("write", b, "nb"), ("scan",), ("delete", b), ("scan",), ("write", b, "nb"), ("scan",)],
+                    [("write", a, "nb"), ("write", b, "nb"), ("scan",), ("rename", b, b2), ("scan",)]):
+            viol, n_scans = run_history([a, b, b2], ["nb"], seq)
+            case = {"part": "history", "paths": [a, b, b2], "contents": ["nb"], "ops": [list(o) for o in seq]}
+            agg.case({"ops": [list(o) for o in seq]}, True, "ok" if not viol else viol[0][0], sample=False)
+            agg.transitions += n_scans
+            agg.extra["sibling_scans"] += n_scans
+            for k, sig, d in viol or []:
+                agg.violation(k, dict({kk: vv for kk, vv in sig.items() if kk != "at_step"}, family="sibling"), case, d)
     elif kind == "near":
         _, p, other, edit = block
         for first, second in (("nb", "nv:" + edit), ("nv:" + edit, "nb")):
@@ -572,7 +592,10 @@ def run(ctx: core.Ctx):
     for p, other in (("a.py", "d/c.js"), ("d/c.js", "a.py")):
         for edit in NEAR_EDITS:
             blocks.append(("near", p, other, edit))
+    for a, b in (("s/x.h", "s/y.cpp"), ("s/x.h", "s/y.cc"), ("s/b.js", "s/b.ts"), ("s/x.c", "s/x.h"), ("s/a.py", "s/a.js")):
+        blocks.append(("sibling", a, b))
     ctx.bounds["near_edits"] = NEAR_EDITS
+    ctx.bounds["sibling_pairs"] = ["x.h + y.cpp", "x.h + y.cc", "b.js + b.ts", "x.c + x.h", "a.py + a.js"]
     ctx.run_blocks(_block, blocks)
 
 
